@@ -244,8 +244,111 @@ def c01():
                 pass
 
 
+def c19_history():
+    """E2 at the wrapper level: DFS over sequences of calls, a state being an os.fork() snapshot of
+    the interpreter (module-level caches, default-argument state, the extension's statics all carry
+    over exactly as in a long-running program). Every call must return what it returns as the first
+    call in a fresh snapshot."""
+    import mmap
+    scalars = [True, 1, 1.0, False, 0, 0.0, -0.0, "1", None, [1], {"a": 1}]
+    rules = [{"var": ""}, {"===": [{"var": ""}, 1]}, {"cat": [{"var": ""}, ""]}]
+    calls = []
+    for r in rules:
+        for d in scalars:
+            calls.append(("apply(%r,%r)" % (r, d), (lambda r=r, d=d: jsonlogic_rs.apply(r, d))))
+    for d in scalars[:7]:
+        calls.append(("apply(%r)" % (d,), (lambda d=d: jsonlogic_rs.apply(d))))
+        calls.append(("apply_serialized(%r)" % (json.dumps(d),), (lambda d=d: jsonlogic_rs.apply_serialized(json.dumps(d)))))
+    calls.append(("apply({'var':''},1,compact)", lambda: jsonlogic_rs.apply({"var": ""}, 1, compact)))
+    calls.append(("apply({'var':''},1.0,None,tagged)", lambda: jsonlogic_rs.apply({"var": ""}, 1.0, None, tagged)))
+    calls.append(("apply_serialized('{\"var\":\"\"}','true',tagged)", lambda: jsonlogic_rs.apply_serialized('{"var":""}', "true", tagged)))
+    calls.append(("apply_serialized('{')", lambda: jsonlogic_rs.apply_serialized("{")))
+    calls.append(("apply({'+':['x']})", lambda: jsonlogic_rs.apply({"+": ["x"]})))
+
+    def outcome(fn):
+        try:
+            return "value " + repr(fn())
+        except ValueError:
+            return "ValueError"
+        except BaseException as e:  # noqa: BLE001
+            return "other " + type(e).__name__
+
+    def in_child(fn):
+        r, w = os.pipe()
+        pid = os.fork()
+        if pid == 0:
+            os.close(r)
+            try:
+                os.write(w, fn().encode("utf-8", "backslashreplace"))
+            finally:
+                os._exit(0)
+        os.close(w)
+        buf = b""
+        while True:
+            c = os.read(r, 65536)
+            if not c:
+                break
+            buf += c
+        os.close(r)
+        os.waitpid(pid, 0)
+        return buf.decode("utf-8")
+
+    iso = [in_child(lambda f=f: outcome(f)) for _, f in calls]
+    counters = mmap.mmap(-1, 32)
+    viofile = outfile + ".hist"
+    max_depth = 3 if thorough else 2
+
+    def bump(i):
+        (v,) = struct.unpack_from("<Q", counters, 8 * i)
+        struct.pack_into("<Q", counters, 8 * i, v + 1)
+
+    def visit(history, c):
+        pid = os.fork()
+        if pid == 0:
+            try:
+                bump(0)
+                o = outcome(calls[c][1])
+                h = history + [c]
+                if o != iso[c]:
+                    bump(1)
+                    with open(viofile, "a") as vf:
+                        vf.write(json.dumps(safe({"history": [calls[i][0] for i in h], "expected": iso[c], "actual": o})) + "\n")
+                if len(h) < max_depth:
+                    for c2 in range(len(calls)):
+                        visit(h, c2)
+            finally:
+                os._exit(0)
+        os.waitpid(pid, 0)
+
+    for c in range(len(calls)):
+        if c % nshards != shard:
+            continue
+        tick()
+        if PROG and _prog_fd is not None:
+            os.pwrite(_prog_fd, struct.pack("<Q", (1 << 41) + c), 0)
+        visit([], c)
+    (n_states,) = struct.unpack_from("<Q", counters, 0)
+    res["leaves"] += n_states
+    res["evaluations"] += n_states
+    res["states"] += n_states
+    res["transitions"] += n_states
+    res["subspaces"]["history:call-after-history"] = n_states
+    res["outcomes"]["history-ok"] = n_states
+    for i in range(min(n_states, 200000)):
+        res["hashes"].append("pyhist-%d-%d" % (shard, i))
+    if os.path.exists(viofile):
+        for line in open(viofile):
+            v = json.loads(line)
+            fail("history", {"python_history": v["history"]}, "last call as in isolation: " + v["expected"], v["actual"])
+        os.remove(viofile)
+    if len(res["samples"]) < 8:
+        res["samples"].append({"python_history_alphabet": len(calls), "max_depth": max_depth, "snapshots": n_states, "example": [calls[0][0], calls[2][0]]})
+
+
 try:
     if mode == "c19":
+        # the history exploration starts from the pristine interpreter: it must run first
+        c19_history()
         c19()
     else:
         c01()
